@@ -731,10 +731,16 @@ type havingClause struct {
 
 func (h *havingClause) Get(known core.Fields) (expr.Expr, error) {
 	h.init(known)
-	filter, _ := h.exprFor(h.stmt.Having.Expr, true)
+	filter, err := h.exprFor(h.stmt.Having.Expr, true)
+	if err != nil {
+		return nil, err
+	}
 	log.Tracef("Applying having: %v", filter)
-	having := filter.(expr.Expr)
-	err := having.Validate()
+	having, ok := filter.(expr.Expr)
+	if !ok {
+		return nil, fmt.Errorf("Not an Expr: %v", filter)
+	}
+	err = having.Validate()
 	if err != nil {
 		return nil, fmt.Errorf("Invalid expression for HAVING clause: %v", err)
 	}
